@@ -28,6 +28,7 @@ pub const ITER_STUB: &[&str] = &[
     "thread scheduling (simulator baton)",
     "asynchronous signal arrival (direct call of the kernel-reported disposition at a chosen scheduling point, incl. nested on the consumer)",
     "the async reactor behind poll_signal's readiness callback: a stub doing a real non-blocking 1-byte read and otherwise arming a wake-up on the descriptor (7/8 of the runs); 1/8 of the C09 and 1/4 of the C11 runs drive the REAL signal-hook-tokio Stream on a real current-thread tokio runtime polled by hand (in half of them a second simulated thread turns the I/O driver at arbitrary instants), and 1/64 of the C11 runs are a sequential conformance scenario of the REAL signal-hook-async-std Stream on async-io",
+    "1/8 of the C09, C10 and C03 runs drive the REAL signal-hook-mio Signals (v1_0 / v0_8 / v0_7 / v0_6 in turn) registered with a real edge-triggered mio::Poll (real epoll, polled with a zero timeout; the simulator parks the consumer on the epoll descriptor instead of blocking in it)",
 ];
 
 pub const PROPS: &[Prop] = &[
@@ -48,6 +49,7 @@ pub const PROPS: &[Prop] = &[
             (E_ITER_FULL_PIPE, "fault:self_pipe_full_at_start"),
             (E_ITER_REACTOR_TURNS, "fault:reactor_turned_by_another_thread"),
             (E_ITER_CB_ERRORS, "fault:readiness_callback_returned_error"),
+            (E_ITER_MIO_POLLS, "real_mio_poll_turns"),
         ],
         real: ITER_REAL,
         stub: ITER_STUB,
@@ -61,7 +63,7 @@ pub const PROPS: &[Prop] = &[
         quick_runs: 100_000,
         thorough_runs: 3_000_000,
         rule: "same engine with bursts up to 9 deliveries of one signal and deliveries of unwatched signals; at every yield: yields(s) <= deliveries of s begun since add_signal(s) was invoked, s watched; info exfiltrators: record byte-identical to exactly one delivery (by si_value tag), no tag twice, per-signal delivery order. Non-trivial: a burst exceeded the per-signal buffer or a delivery overlapped a consumer call. Distinct: by schedule signature.",
-        probes: &[(E_ITER_RECORDS, "info_records_checked"), (E_ITER_BURST_OVERFLOW, "burst_longer_than_buffer"), (E_ITER_YIELDS, "values_yielded"), (E_ITER_STORE_DURING_SCAN, "delivery_overlapped_consumer_call")],
+        probes: &[(E_ITER_RECORDS, "info_records_checked"), (E_ITER_BURST_OVERFLOW, "burst_longer_than_buffer"), (E_ITER_YIELDS, "values_yielded"), (E_ITER_STORE_DURING_SCAN, "delivery_overlapped_consumer_call"), (E_ITER_MIO_POLLS, "real_mio_poll_turns")],
         real: ITER_REAL,
         stub: ITER_STUB,
         assumptions: &["WithOrigin carries no per-delivery tag: only signal, pid, uid and cause are compared, and counts"],
@@ -93,6 +95,9 @@ enum Mode {
     Poll,
     /// the real signal-hook-tokio Stream on a real current-thread tokio runtime, polled by hand
     Tokio,
+    /// the real signal-hook-mio `Signals` registered as an event source with a real (edge-triggered)
+    /// `mio::Poll`, one of the four supported mio versions per run
+    Mio,
 }
 
 struct DeliveryRec {
@@ -839,6 +844,155 @@ fn asyncio_conformance(spec: &RunSpec) -> ! {
     }
 }
 
+
+// ---------------------------------------------------------------------------------------------
+// the real mio adapter under the simulator
+
+enum MioOp {
+    Poll,
+    Pending,
+    Add(i32),
+}
+enum MioRes {
+    Polled(bool, bool),
+    Batch(Vec<libc::c_int>),
+    Added(Result<(), Error>),
+}
+#[derive(Clone, Copy)]
+struct MioPlan {
+    added: Option<i32>,
+    add_at: u32,
+    rejected: u32,
+}
+const MIO_SIG: usize = 0;
+
+/// The consumer of a mio event loop: parks until the poller's descriptor reports readiness (the
+/// simulator's stand-in for a blocking `poll()`), collects the events (edge-triggered: a readiness
+/// is reported once), and on an event of the signal source drains `pending()`.  The adapter has no
+/// handle and no close(): the harness ends the loop through a second event source.
+fn mio_loop(epfd: i32, plan: MioPlan, mut op: impl FnMut(MioOp) -> MioRes) {
+    for _ in 0..plan.rejected {
+        let r = catch_unwind(AssertUnwindSafe(|| op(MioOp::Add(libc::SIGKILL))));
+        let _g = ShimGuard::new();
+        sim::count(E_HIST_REJECTED, 1);
+        if r.is_ok() {
+            sim::report("C14", "forbidden-accepted", "add_signal(SIGKILL) did not panic", false);
+        }
+    }
+    let mut iter = 0u32;
+    let mut stop = false;
+    loop {
+        if let Some(a) = plan.added {
+            if iter == plan.add_at {
+                sim::sp_user();
+                do_add_with(a, || match op(MioOp::Add(a)) {
+                    MioRes::Added(r) => r,
+                    _ => unreachable!(),
+                });
+            }
+        }
+        iter += 1;
+        if stop {
+            break;
+        }
+        sighook_shim::hook::block_until_readable(epfd);
+        sim::sp_user();
+        let (sig, st) = match op(MioOp::Poll) {
+            MioRes::Polled(a, b) => (a, b),
+            _ => unreachable!(),
+        };
+        sim::count(E_ITER_MIO_POLLS, 1);
+        if sig {
+            call_begin();
+            let b = match op(MioOp::Pending) {
+                MioRes::Batch(b) => b,
+                _ => unreachable!(),
+            };
+            call_end();
+            for o in b.iter() {
+                record_yield(o);
+            }
+        }
+        if st {
+            stop = true;
+        }
+    }
+}
+
+macro_rules! mio_kit {
+    ($build:ident, $mio:ident, $ver:ident) => {
+        fn $build(list: &[i32], stop_fd: i32, plan: MioPlan) -> Box<dyn FnOnce() + Send> {
+            use $mio::{Events, Interest, Poll, Token};
+            let poll = Poll::new().expect("mio Poll");
+            let mut s = signal_hook_mio::$ver::Signals::new(list.iter()).expect("mio Signals");
+            poll.registry().register(&mut s, Token(MIO_SIG), Interest::READABLE).expect("mio register");
+            poll.registry().register(&mut $mio::unix::SourceFd(&stop_fd), Token(1), Interest::READABLE).expect("mio register stop");
+            Box::new(move || {
+                let mut poll = poll;
+                let epfd = poll.as_raw_fd();
+                let mut events = Events::with_capacity(8);
+                mio_loop(epfd, plan, |op| match op {
+                    MioOp::Poll => {
+                        poll.poll(&mut events, Some(std::time::Duration::from_millis(0))).expect("mio poll");
+                        let (mut a, mut b) = (false, false);
+                        for e in events.iter() {
+                            if e.token() == Token(MIO_SIG) {
+                                a = true
+                            } else {
+                                b = true
+                            }
+                        }
+                        MioRes::Polled(a, b)
+                    }
+                    MioOp::Pending => MioRes::Batch(s.pending().collect()),
+                    MioOp::Add(n) => MioRes::Added(s.add_signal(n)),
+                });
+                drop(s);
+                let _g = ShimGuard::new();
+                drop(events);
+                drop(poll);
+            })
+        }
+    };
+}
+mio_kit!(mio_build_v1_0, mio_1_0, v1_0);
+mio_kit!(mio_build_v0_8, mio_0_8, v0_8);
+mio_kit!(mio_build_v0_7, mio_0_7, v0_7);
+
+fn mio_build_v0_6(list: &[i32], stop_fd: i32, plan: MioPlan) -> Box<dyn FnOnce() + Send> {
+    use mio_0_6::{Events, Poll, PollOpt, Ready, Token};
+    let poll = Poll::new().expect("mio Poll");
+    let s = signal_hook_mio::v0_6::Signals::new(list.iter()).expect("mio Signals");
+    poll.register(&s, Token(MIO_SIG), Ready::readable(), PollOpt::edge()).expect("mio register");
+    poll.register(&mio_0_6::unix::EventedFd(&stop_fd), Token(1), Ready::readable(), PollOpt::edge()).expect("mio register stop");
+    Box::new(move || {
+        let poll = poll;
+        let mut s = s;
+        let epfd = poll.as_raw_fd();
+        let mut events = Events::with_capacity(8);
+        mio_loop(epfd, plan, |op| match op {
+            MioOp::Poll => {
+                poll.poll(&mut events, Some(std::time::Duration::from_millis(0))).expect("mio poll");
+                let (mut a, mut b) = (false, false);
+                for e in events.iter() {
+                    if e.token() == Token(MIO_SIG) {
+                        a = true
+                    } else {
+                        b = true
+                    }
+                }
+                MioRes::Polled(a, b)
+            }
+            MioOp::Pending => MioRes::Batch(s.pending().collect()),
+            MioOp::Add(n) => MioRes::Added(s.add_signal(n)),
+        });
+        drop(s);
+        let _g = ShimGuard::new();
+        drop(events);
+        drop(poll);
+    })
+}
+
 // ---------------------------------------------------------------------------------------------
 
 fn classify(info: &DeadlockInfo) -> (String, String, String) {
@@ -857,7 +1011,12 @@ fn classify(info: &DeadlockInfo) -> (String, String, String) {
 fn unreported(x: &World) -> Vec<String> {
     let mut v = Vec::new();
     for (i, d) in x.deliveries.iter().enumerate() {
-        if d.end.is_none() || !d.dispatched {
+        if d.end.is_none() {
+            continue;
+        }
+        // (a delivery that found the default/ignore disposition is an obligation too when add_signal
+        // had returned before it began: the library's handler, once installed, is never uninstalled)
+        if !d.dispatched && !watched_at(x, d.sig, d.begin, true) {
             continue;
         }
         // an obligation: the signal was watched (add_signal had returned) when the delivery began,
@@ -889,7 +1048,7 @@ fn quiescent_oracle() {
                 sim::report(
                     "C09",
                     "signal-lost",
-                    &format!("the consumer is blocked on the empty self-pipe (no wake-up outstanding) while these deliveries of watched signals were never reported after they happened: {:?}", missing),
+                    &format!("the consumer is {} while these deliveries of watched signals were never reported after they happened: {:?}", if x.mode == Mode::Mio { "parked in the mio poller with no readiness event outstanding" } else { "blocked on the empty self-pipe (no wake-up outstanding)" }, missing),
                     true,
                 );
             }
@@ -931,6 +1090,10 @@ fn do_close(h: &Handle, who: &str) {
 }
 
 fn do_add(h: &Handle, sig: i32) {
+    do_add_with(sig, || h.add_signal(sig))
+}
+
+fn do_add_with(sig: i32, f: impl FnOnce() -> Result<(), Error>) {
     {
         let _g = ShimGuard::new();
         let x = w();
@@ -942,7 +1105,7 @@ fn do_add(h: &Handle, sig: i32) {
             sim::count(E_CONCURRENT_ADD, 1);
         }
     }
-    let r = catch_unwind(AssertUnwindSafe(|| h.add_signal(sig)));
+    let r = catch_unwind(AssertUnwindSafe(f));
     let _g = ShimGuard::new();
     let x = w();
     x.seq += 1;
@@ -1038,9 +1201,14 @@ pub fn run(spec: &RunSpec) -> ! {
     }
     let mode = if prop == "C11" && sim::work(2) == 0 { Mode::Poll } else { mode };
     let mode = if adapter_tokio { Mode::Tokio } else { mode };
+    // ... and another slice the real mio adapter on a real edge-triggered poller
+    let adapter_mio = (prop == "C09" || prop == "C10" || prop == "C03") && spec.run % 8 == 5;
+    let mode = if adapter_mio { Mode::Mio } else { mode };
     // C12's concurrent slice needs the harness-owned pipe (clean-up probe)
     let mode = if prop == "C12" || prop == "C01" { [Mode::Pending, Mode::Poll][(spec.run / 8 % 2) as usize] } else { mode };
     let exf = sim::work(3) as u8;
+    // (the mio adapter is an event source only with the plain exfiltrator)
+    let exf = if mode == Mode::Mio { 0 } else { exf };
     // every fourth run draws from the edges of the signal-number range (lowest, highest classic,
     // first and last real-time signal), where table bounds live
     let mut pool: Vec<i32> = if sim::work(4) == 0 { vec![libc::SIGHUP, libc::SIGSYS, libc::SIGRTMIN(), libc::SIGRTMAX() - 1, libc::SIGRTMAX(), libc::SIGUSR1] } else { SIGS.to_vec() };
@@ -1081,7 +1249,7 @@ pub fn run(spec: &RunSpec) -> ! {
     // close (and the drop of the instance that follows) while deliveries are still running
     let early_close = (prop == "C11" && sim::work(3) != 0) || ((prop == "C03" || prop == "C01") && sim::work(2) == 0);
     let prefill = sim::work(4);
-    let full_pipe = mode != Mode::Tokio && sim::work(8) == 0;
+    let full_pipe = mode != Mode::Tokio && mode != Mode::Mio && sim::work(8) == 0;
     let reactor_thread = sim::work(2) == 0;
     let construct_inject = mode != Mode::Tokio && sim::work(4) == 0;
     let policy = match sim::work(8) {
@@ -1164,6 +1332,64 @@ pub fn run(spec: &RunSpec) -> ! {
     // is being constructed: between the registration of a listed signal and the constructor's return
     if construct_inject {
         sim::set_injector(injector());
+    }
+    if mode == Mode::Mio {
+        // ---- the real mio adapter: its own thread structure (no handle, no close())
+        let ver = sim::work(4);
+        let plan = MioPlan { added, add_at: sim::work(3), rejected: if rejected_add { rejected_times } else { 0 } };
+        let (stop_rd, stop_wr) = UnixStream::pair().expect("socketpair");
+        let build = [mio_build_v1_0, mio_build_v0_8, mio_build_v0_7, mio_build_v0_6][ver as usize];
+        sim::note(&format!("mio adapter {}", ["v1_0", "v0_8", "v0_7", "v0_6"][ver as usize]));
+        let body = build(&ctor_list, stop_rd.as_raw_fd(), plan);
+        {
+            let x = w();
+            x.seq += 1;
+            let now = x.seq;
+            for e in x.watched.iter_mut() {
+                if e.2.is_none() {
+                    e.2 = Some(now);
+                }
+            }
+        }
+        sim::set_injector(injector());
+        let consumer = sim::spawn("consumer", move || {
+            body();
+            drop(stop_rd);
+        });
+        w().consumer_tid = consumer;
+        sim::set_pipe_consumer(consumer);
+        let mut tids = Vec::new();
+        for d in dels.into_iter() {
+            tids.push(sim::spawn("deliverer", move || {
+                for s in d.iter() {
+                    sim::sp_user();
+                    do_delivery(*s, false);
+                }
+            }));
+        }
+        let controller = sim::spawn("controller", move || {
+            if !early_close {
+                sim::wait_quiescent();
+                sim::set_stop_inject(true);
+                quiescent_oracle();
+            }
+            sim::sp_user();
+            let _g = ShimGuard::new();
+            unsafe { libc::send(stop_wr.as_raw_fd(), b"S".as_ptr() as *const _, 1, libc::MSG_DONTWAIT | libc::MSG_NOSIGNAL) };
+            drop(stop_wr);
+        });
+        w().all_spawned = true;
+        for t in tids {
+            sim::join(t);
+        }
+        sim::join(controller);
+        sim::join(consumer);
+        let _g = ShimGuard::new();
+        let c = &sighook_shim::shm::get().counters;
+        if c[E_ITER_STORE_DURING_SCAN] > 0 || (prop == "C10" && burst) {
+            sim::mark_nontrivial();
+        }
+        sim::finish_ok()
     }
     let with_pipe = matches!(mode, Mode::Pending | Mode::Poll);
     let mut tokio_rt: Option<std::sync::Arc<tokio::runtime::Runtime>> = None;
